@@ -188,11 +188,11 @@ theorem c08_adopt_leaf_plain {sf cf : Flags} (env : Env) (v : Scalar) (hs : flag
 theorem c08_compMerge_level (rec : Node → Node → Except Err (Node × Bool)) {sf of : Flags}
     (hs : flagsPlain sf = true) (ho : c08_docFlags of = true) (scs : List (Key × Node)) (k : Key) (o : Node) :
     compMerge rec sf .dict scs (.comp of .dict [(k, o)]) =
-      match mergeStep rec sf .dict scs (k, o) with
+      match mergeStep rec sf .dict [] scs (k, o) with
       | .error e => .error e
       | .ok scs' => .ok (propagate (.comp (replaceSelfFlags sf of) .dict scs'), true) := by
   simp only [compMerge, c08_eDel_doc ho, Bool.false_eq_true, if_false, mergeLoop]
-  cases mergeStep rec sf .dict scs (k, o) with
+  cases mergeStep rec sf .dict [] scs (k, o) with
   | error e => rfl
   | ok scs' =>
     simp [finishMerge, Node.flags, (c08_hasPrio_doc hs ho true).1, maybePromote, CompKind.sameClass]
@@ -267,27 +267,27 @@ theorem c08_mergeF_dict (n : Nat) (sf : Flags) (scs : List (Key × Node)) (o : N
 theorem c08_step_missing (rec : Node → Node → Except Err (Node × Bool)) (sf : Flags)
     (scs : List (Key × Node)) (k : Key) (o : Node) (hl : alookup k scs = none)
     (ho : eNew o.flags = false) :
-    mergeStep rec sf .dict scs (k, o) = .error (.notnew [k]) := by
+    mergeStep rec sf .dict [] scs (k, o) = .error (.notnew [k]) := by
   have hg : getChild .dict k scs = none := by simp [getChild, CompKind.isDictFam, hl]
-  rw [c08_mergeStep_absent rec sf .dict scs k o hg, c08_reqNew_self o ho]
+  rw [c08_mergeStep_absent rec sf .dict scs k o hg, excBelow_nil, c08_reqNew_self o ho]
 
 theorem c08_step_error (rec : Node → Node → Except Err (Node × Bool)) (sf : Flags)
     (scs : List (Key × Node)) (k : Key) (o c : Node) (e : Err) (hl : alookup k scs = some c)
     (hr : rec c o = .error e) :
-    mergeStep rec sf .dict scs (k, o) = .error (e.prepend k) := by
+    mergeStep rec sf .dict [] scs (k, o) = .error (e.prepend k) := by
   simp [mergeStep, getChild, CompKind.isDictFam, hl, hr]
 
 theorem c08_step_inplace (rec : Node → Node → Except Err (Node × Bool)) (sf : Flags)
     (scs : List (Key × Node)) (k : Key) (o c nw : Node) (hl : alookup k scs = some c)
     (hr : rec c o = .ok (nw, true)) (hc : c.isComp = true) (hd : o.flags.del = none) :
-    mergeStep rec sf .dict scs (k, o) = .ok (aset k nw scs) := by
+    mergeStep rec sf .dict [] scs (k, o) = .ok (aset k nw scs) := by
   simp [mergeStep, getChild, CompKind.isDictFam, hl, hr, hc, hd, replaceChild]
 
 theorem c08_step_replace_leaf (rec : Node → Node → Except Err (Node × Bool)) (sf : Flags)
     (scs : List (Key × Node)) (k : Key) (o c : Node) (f : Flags) (lk : LeafKind)
     (hl : alookup k scs = some c) (hr : rec c o = .ok (.leaf f lk, false))
     (hd : o.flags.del = none) (hfd : f.del = none) :
-    mergeStep rec sf .dict scs (k, o) = .ok (aset k (adopt sf .dict (.leaf f lk)) scs) := by
+    mergeStep rec sf .dict [] scs (k, o) = .ok (aset k (adopt sf .dict (.leaf f lk)) scs) := by
   have hfd' : (Node.leaf f lk).flags.del = none := hfd
   cases hc : c.isComp <;>
     simp [mergeStep, getChild, CompKind.isDictFam, hl, hr, hc, hd, hfd', reqNewBelow, setChild]
@@ -296,7 +296,7 @@ theorem c08_step_scalar_blocks (rec : Node → Node → Except Err (Node × Bool
     (scs : List (Key × Node)) (k : Key) (o c nw : Node) (p : Path)
     (hl : alookup k scs = some c) (hc : c.isComp = false) (hr : rec c o = .ok (nw, false))
     (hb : reqNewBelow nw = some p) :
-    mergeStep rec sf .dict scs (k, o) = .error (.notnew (k :: p)) := by
+    mergeStep rec sf .dict [] scs (k, o) = .error (.notnew (k :: p)) := by
   simp [mergeStep, getChild, CompKind.isDictFam, hl, hr, hc, hb]
 
 /-! ### shape of a tag-free tree from its data -/
